@@ -143,7 +143,7 @@ def session_events(args):
         out = wd.api_output()
         exc = wd.loop_exceptions()
         established = any(b == 'ESTABLISHED' for _, _, _, b in wd.fsm_log)
-        broken = list(wd.reactor.processes._broken) if hasattr(wd.reactor, 'processes') else []
+        broken = ['api'] if hasattr(wd.reactor, 'processes') and wd.reactor.processes.broken(None) else []
     return out, exc, established, broken
 
 
